@@ -365,8 +365,10 @@ def run(scn) -> Result:
                 for op in doc_ops:
                     _k, var, per, vals = op["do"]
                     arr = tile(vals, len(persons), world.var_specs[var], world)
+                    # (a document parsed from YAML carries a year written without quotes as an int)
+                    key = int(per) if (len(per) == 4 and per.isdigit() and len(persons) % 2 == 0) else per
                     for k, pid in enumerate(persons):
-                        situation["persons"][pid].setdefault(var, {})[per] = arr[k].item()
+                        situation["persons"][pid].setdefault(var, {})[key] = arr[k].item()
                 res.count("probe:inputs_given_in_the_situation_document", len(doc_ops))
             sim = build_sim(world, situation, scn["knobs"], ())
             if doc_ops and [str(i) for i in sim.persons.ids] != list(situation["persons"]):
